@@ -804,8 +804,25 @@ func (engine) Generate(r *lib.Rng, tier string, i int) any {
 	}
 	if r.Chance(1, 25) {
 		// a nil result of an interface-typed node / graph (direct oracle only: the model has no nil)
-		sp := &NilSpec{Shape: r.Intn(8), Nat: g.natSubset(), NChunk: r.Range(1, 2), DAG: r.Chance(1, 2), Pipe: r.Chance(1, 2)}
+		sp := &NilSpec{Shape: r.Intn(10), Nat: g.natSubset(), NChunk: r.Range(1, 2), DAG: r.Chance(1, 2), Pipe: r.Chance(1, 2), NilIn: r.Chance(1, 3)}
 		return &Case{Kind: "nilout", Nil: sp}
+	}
+	if r.Chance(1, 25) {
+		// int chunks: they concatenate to the last one, at top level and as values of map chunks
+		ints := func() []int {
+			pool := []int{0, 1, 5, 7, 0}
+			var out []int
+			for i, n := 0, r.Range(1, 4); i < n; i++ {
+				out = append(out, pool[r.Intn(len(pool))])
+			}
+			if len(out) > 1 && r.Chance(1, 2) {
+				out[len(out)-1] = 0 // a zero chunk last, after (usually) a non-zero one
+				out[0] = 5
+			}
+			return out
+		}
+		sp := &ScalarSpec{Shape: r.Intn(5), Nat: g.natSubset(), Out: ints(), In: ints(), DAG: r.Chance(1, 2), Pipe: r.Chance(1, 2)}
+		return &Case{Kind: "scalar", Scalar: sp}
 	}
 	if r.Chance(1, 4) {
 		// one packed lambda, all four views
